@@ -171,39 +171,90 @@ def r04_a(ctx):
     return rr
 
 
+def _emission_sources(stmts):
+    """ordered list of what a generator body emits: ('each', <iterable expr>, inner) for `for x in X: yield x` /
+    `yield from X`; inner = the nested emission sources when the loop body itself loops"""
+    out = []
+    for s in stmts:
+        if isinstance(s, ast.Expr) and isinstance(s.value, ast.YieldFrom):
+            out.append(('each', s.value.value, None))
+        elif isinstance(s, ast.For):
+            tv = norm(s.target)
+            direct = [x for x in s.body if isinstance(x, ast.Expr) and isinstance(x.value, ast.Yield) and norm(x.value.value) == tv]
+            inner = _emission_sources(s.body)
+            if direct and len(s.body) == 1:
+                out.append(('each', s.iter, None))
+            elif inner:
+                out.append(('nested', s.iter, (tv, inner)))
+            else:
+                out.append(('other', s, None))
+        elif isinstance(s, ast.Expr) and isinstance(s.value, ast.Constant):
+            continue
+        elif any(isinstance(x, (ast.Yield, ast.YieldFrom)) for x in ast.walk(s)):
+            out.append(('other', s, None))
+    return out
+
+
 def r04_b(ctx):
     repo = ctx.repo
     texexpr, _ = _expr_classes(repo)
     rr = RuleResult('R04.b', 'the complete content list enumerates the contents of every argument group and then the '
                     'node\'s own content list', floor=2)
     fd = _m(texexpr, 'all', 'getter')
-    loops = [n for n in fd.node.body if isinstance(n, ast.For)]
-    args_loop = [l for l in loops if norm(l.iter) == 'self.args']
-    own_loop = [l for l in loops if norm(l.iter).startswith('self._') and 'content' in norm(l.iter)]
-    ok_args = False
-    if args_loop:
-        av = args_loop[0].target.id if isinstance(args_loop[0].target, ast.Name) else None
-        inner = [n for n in ast.walk(args_loop[0]) if isinstance(n, ast.For) and n is not args_loop[0]]
-        ok_args = any(norm(i.iter) == '%s.contents' % av and any(isinstance(y, ast.Yield) and norm(y.value) == norm(i.target)
-                                                                   for y in ast.walk(i)) for i in inner) or \
-            any(isinstance(y, ast.YieldFrom) and norm(y.value) == '%s.contents' % av for y in ast.walk(args_loop[0]))
-    rr.ob(ok_args, {'argument_groups_enumerated': ok_args})
+    srcs = _emission_sources(strip_doc(fd.node.body))
+    if any(k == 'other' for k, _, _ in srcs):
+        raise AnalysisError('TexExpr.all: emission shape not recognised')
+    descr = []
+    for k, it, inner in srcs:
+        if k == 'each':
+            descr.append(norm(it))
+        else:
+            tv, inn = inner
+            descr.append('%s -> %s' % (norm(it), ','.join(norm(x[1]).replace(tv + '.', '<group>.') for x in inn if x[0] == 'each')))
+    args_idx = [i for i, d in enumerate(descr) if d == 'self.args -> <group>.contents']
+    own_idx = [i for i, d in enumerate(descr) if d.startswith('self._') and 'content' in d and '->' not in d]
+    ok_args = bool(args_idx)
+    rr.ob(ok_args, {'argument_groups_enumerated': ok_args, 'emits': descr})
     if not ok_args:
         rr.fail(Finding('R04.b', 'data', fd.qual, 'argument groups in TexExpr.all', 'the complete content list does not '
                         'enumerate the contents of the argument groups: commands inside arguments are invisible to '
                         'search and navigation', line=fd.node.lineno))
-    ok_own = bool(own_loop) and any(isinstance(y, ast.Yield) and norm(y.value) == norm(own_loop[0].target) for y in ast.walk(own_loop[0]))
+    ok_own = bool(own_idx)
     rr.ob(ok_own, {'own_contents_enumerated': ok_own})
     if not ok_own:
         rr.fail(Finding('R04.b', 'data', fd.qual, 'own content list in TexExpr.all', 'the complete content list does not '
                         'enumerate the node\'s own content list', line=fd.node.lineno))
     if ok_args and ok_own:
-        order = fd.node.body.index(args_loop[0]) < fd.node.body.index(own_loop[0])
-        rr.ob(order, {'arguments_before_contents': order})
+        order = args_idx[0] < own_idx[0] and len(descr) == 2
+        rr.ob(order, {'arguments_then_contents_only': order})
         if not order:
-            rr.fail(Finding('R04.b', 'data', fd.qual, 'order of TexExpr.all', 'argument contents are enumerated after the '
-                            'body: document order is lost', line=fd.node.lineno))
+            rr.fail(Finding('R04.b', 'data', fd.qual, 'order of TexExpr.all: %s' % descr, 'the complete content list is not '
+                            'exactly the argument contents followed by the body: document order is lost or elements are '
+                            'repeated', line=fd.node.lineno))
     return rr
+
+
+def _wiring_helpers(repo):
+    """module-level functions of data.py that build a node wrapper of one parameter and set its parent to
+    another parameter before returning it: name -> (parent param index, expr param index)"""
+    out = {}
+    for fd in repo.modules['data'].functions.values():
+        ps = fd.params()
+        built = wired = None
+        ret = None
+        for s in strip_doc(fd.node.body):
+            if isinstance(s, ast.Assign) and isinstance(s.value, ast.Call) and norm(s.value.func) == 'TexNode' \
+                    and isinstance(s.targets[0], ast.Name) and s.value.args and isinstance(s.value.args[0], ast.Name) \
+                    and s.value.args[0].id in ps:
+                built = (s.targets[0].id, s.value.args[0].id)
+            elif isinstance(s, ast.Assign) and isinstance(s.targets[0], ast.Attribute) and s.targets[0].attr == 'parent' \
+                    and built and norm(s.targets[0].value) == built[0] and isinstance(s.value, ast.Name) and s.value.id in ps:
+                wired = s.value.id
+            elif isinstance(s, ast.Return) and built and isinstance(s.value, ast.Name) and s.value.id == built[0]:
+                ret = True
+        if built and wired and ret:
+            out[fd.name] = (ps.index(wired), ps.index(built[1]))
+    return out
 
 
 def r04_c(ctx):
@@ -211,26 +262,45 @@ def r04_c(ctx):
     node = repo.need_cls('data.TexNode')
     rr = RuleResult('R04.c', 'every wrapper a node view hands out has its parent set to the node it was reached from, '
                     'before it is yielded', floor=3)
+    helpers = _wiring_helpers(repo)
     for nm, src in (('all', 'self.expr.all'), ('children', 'self.expr.children'), ('contents', 'self.expr.contents')):
         fd = _m(node, nm, 'getter')
         loops = [n for n in ast.walk(fd.node) if isinstance(n, ast.For)]
         ok_src = len(loops) == 1 and norm(loops[0].iter) == src
         rr.ob(ok_src, {'view': nm, 'iterates': norm(loops[0].iter) if loops else None})
         if not ok_src:
-            rr.fail(Finding('R04.c', 'data', fd.qual, loops[0].iter if loops else 'loop', 'the node view %s is not derived '
+            if len(loops) != 1:
+                raise AnalysisError('TexNode.%s: view shape not recognised' % nm)
+            rr.fail(Finding('R04.c', 'data', fd.qual, loops[0].iter, 'the node view %s is not derived '
                             'from the expression view %s' % (nm, src), line=fd.node.lineno))
             continue
-        # walk the loop body statement lists: every `yield <w>` where w was built by TexNode(...) must be preceded
-        # in its block by `<w>.parent = self`
+        tv = norm(loops[0].target)
         bad = []
+        stats = {'built': 0}
+
+        def wired_call(v):
+            """a call of a wiring helper with parent=self and the loop element"""
+            if isinstance(v, ast.Call) and isinstance(v.func, ast.Name) and v.func.id in helpers:
+                pi, ei = helpers[v.func.id]
+                if len(v.args) > max(pi, ei):
+                    stats['built'] += 1
+                    return norm(v.args[pi]) == 'self'
+            return None
 
         def check(stmts):
             built, wired = {}, set()
             for s in stmts:
-                if isinstance(s, ast.Assign) and isinstance(s.value, ast.Call) and norm(s.value.func) == 'TexNode' \
-                        and isinstance(s.targets[0], ast.Name):
-                    built[s.targets[0].id] = s
-                    wired.discard(s.targets[0].id)
+                if isinstance(s, ast.Assign) and isinstance(s.targets[0], ast.Name) and isinstance(s.value, ast.Call):
+                    if norm(s.value.func) == 'TexNode':
+                        built[s.targets[0].id] = s
+                        stats['built'] += 1
+                        wired.discard(s.targets[0].id)
+                    else:
+                        w = wired_call(s.value)
+                        if w is not None:
+                            built[s.targets[0].id] = s
+                            if w:
+                                wired.add(s.targets[0].id)
                 elif isinstance(s, ast.Assign) and isinstance(s.targets[0], ast.Attribute) and s.targets[0].attr == 'parent' \
                         and isinstance(s.targets[0].value, ast.Name) and norm(s.value) == 'self':
                     wired.add(s.targets[0].value.id)
@@ -238,17 +308,24 @@ def r04_c(ctx):
                     v = s.value.value
                     if isinstance(v, ast.Name) and v.id in built and v.id not in wired:
                         bad.append(s)
-                    if isinstance(v, ast.Call) and norm(v.func) == 'TexNode':
+                    elif isinstance(v, ast.Call) and norm(v.func) == 'TexNode':
+                        stats['built'] += 1
                         bad.append(s)
+                    elif isinstance(v, ast.Call):
+                        w = wired_call(v)
+                        if w is False:
+                            bad.append(s)
+                        elif w is None and norm(v) != tv:
+                            raise AnalysisError('TexNode.%s yields %s: not recognised' % (nm, norm(v)[:40]))
                 elif isinstance(s, ast.If):
                     check(s.body)
                     check(s.orelse)
         check(loops[0].body)
-        n_built = sum(1 for n in ast.walk(loops[0]) if isinstance(n, ast.Call) and norm(n.func) == 'TexNode')
+        n_built = stats['built']
         rr.ob(not bad and n_built >= 1, {'view': nm, 'wrappers_built': n_built, 'unwired_yields': len(bad)})
-        for b in bad:
-            rr.fail(Finding('R04.c', 'data', fd.qual, b, 'the view %s yields a wrapper whose parent is not set: walking '
-                            'parents from it does not reach the root' % nm, line=b.lineno))
+        for b_ in bad:
+            rr.fail(Finding('R04.c', 'data', fd.qual, b_, 'the view %s yields a wrapper whose parent is not set: walking '
+                            'parents from it does not reach the root' % nm, line=b_.lineno))
         if n_built == 0:
             rr.fail(Finding('R04.c', 'data', fd.qual, 'no wrapper built in %s' % nm, 'the node view %s hands out bare '
                             'expressions' % nm, line=fd.node.lineno))
@@ -383,14 +460,28 @@ def r03_c(ctx):
     # attrs['name'] = name ; for k, v in attrs.items(): if getattr(self, k) != v: return False ; return True
     sets_name = any(isinstance(n, ast.Assign) and norm(n.targets[0]) in ("%s['name']" % attrs_p, '%s["name"]' % attrs_p)
                     and norm(n.value) == name_p for n in ast.walk(body))
-    loop = [n for n in ast.walk(body) if isinstance(n, ast.For) and norm(n.iter) == '%s.items()' % attrs_p]
-    ok = sets_name and len(loop) == 1
-    if ok:
-        k, v = [norm(e) for e in loop[0].target.elts]
-        ok = any(isinstance(n, ast.If) and norm(n.test) == 'getattr(self, %s) != %s' % (k, v)
-                 and any(isinstance(s, ast.Return) and norm(s.value) == 'False' for s in n.body) for n in ast.walk(loop[0]))
-        last = strip_doc(body.body)[-1]
-        ok = ok and isinstance(last, ast.Return) and norm(last.value) == 'True'
+    # the attribute comparison: a loop or a comprehension over <attrs>.items() comparing getattr(self, k) with v
+    cmp_ok = False
+    recognised = False
+    for n in ast.walk(body):
+        gens = []
+        if isinstance(n, ast.For) and norm(n.iter) == '%s.items()' % attrs_p and isinstance(n.target, ast.Tuple):
+            gens.append((n.target, n))
+        elif isinstance(n, (ast.GeneratorExp, ast.ListComp)):
+            for g in n.generators:
+                if norm(g.iter) == '%s.items()' % attrs_p and isinstance(g.target, ast.Tuple):
+                    gens.append((g.target, n))
+        for tgt, scope in gens:
+            recognised = True
+            k, v = [norm(e) for e in tgt.elts]
+            for c in ast.walk(scope):
+                if isinstance(c, ast.Compare) and isinstance(c.ops[0], (ast.NotEq, ast.Eq)):
+                    sides = {norm(c.left), norm(c.comparators[0])}
+                    if sides == {'getattr(self, %s)' % k, v}:
+                        cmp_ok = True
+    if not recognised:
+        raise AnalysisError('TexExpr.__match__: attribute comparison not recognised')
+    ok = sets_name and cmp_ok
     rr.ob(ok, {'expression_match': 'attribute comparison with the live object'})
     if not ok:
         rr.fail(Finding('R03.c', 'data', fd.qual, '__match__ of expressions', 'the match predicate of expressions does not '
